@@ -138,6 +138,7 @@ type pathCtx struct {
 	modelMemo map[int]*Term
 	blind     int // solver-decided branches since the last cached model
 	pending   []pendingAssert
+	knownHit  bool
 }
 
 type pendingAssert struct {
@@ -595,12 +596,11 @@ func (i *interpreter) assertNow(c *Term, id string, isPanic bool, msg string) {
 			}
 			i.solver.Pop()
 		}
-		// continue the path only where the assertion holds
-		if c.IsConst() && c.cv == 0 {
-			i.abort("known", "assertion %s fails only inside known region %s", id, kid)
-		}
-		if !i.feasible(c) {
-			i.abort("known", "assertion %s fails only inside known region %s", id, kid)
+		// continue where the assertion holds; where it fails on every input of this path (a listed
+		// finding), continue without assuming it so that later assertions are still decided
+		if (c.IsConst() && c.cv == 0) || !i.feasible(c) {
+			i.path.knownHit = true
+			return
 		}
 	}
 	i.addPC(c)
